@@ -15,6 +15,8 @@ func init() {
 // arrays and compares every (state, terminal) cell and every existing (state, nonterminal) goto.
 func c05(c *Ctx) {
 	c.Rule = "random CFGs incl. precedence/nonassoc (explicit error cells) compiled by the real lalr.Compile with Optimize=true, DefaultReduce on/off, MinimizeDFA on/off; every state x symbol cell of the displacement encoding is decoded in Lean and compared with the default encoding; non-trivial = packed table has at least 2 lines sharing cells (len(Table) < sum of line spans) ; distinct by grammar+options"
+	c.Rule += "; packer level: lalr.pack itself (hook VerifPack) on random sparse lines incl. exact duplicates and DIFFERENT lines of equal length with colliding base-31 hashes, wide and narrow; Lean evaluates the decode specification Pack.packOk (every cell reads back, every other position reads as absent) on the real output"
+	c05Pack(c)
 	n := c.N(1200, 30000)
 	for i := 0; i < n; i++ {
 		cfg := GramCfg{MaxNT: 6, MaxNN: 6, MaxRules: 4, MaxRHS: 4, MultiInput: true, PEmpty: 0.15, Prec: c.Rng.Intn(2) == 0}
